@@ -414,9 +414,13 @@ def check_callers(rep, repo, inv):
             outer = [n for n in ast.walk(gi.node) if isinstance(n, ast.Call) and isinstance(n.func, ast.Attribute) and n.func.attr == g.name]
             if len(outer) == 1 and not outer[0].keywords and not any(isinstance(a_, ast.Starred) for a_ in outer[0].args):
                 m_ = dict(zip(ps, outer[0].args))
-                args_ = [m_.get(a_.id, a_) if isinstance(a_, ast.Name) else a_ for a_ in args_]
-                if all(not (isinstance(a_, ast.Name) and a_.id in ps) for a_ in args_):
+                mapped = [isinstance(a_, ast.Name) and a_.id in m_ for a_ in args_[:2]]
+                if all(mapped):
+                    args_ = [m_.get(a_.id, a_) if isinstance(a_, ast.Name) else a_ for a_ in args_]
                     g = gi
+                elif any(mapped):
+                    rep.inconclusive('C12.R4', g.where, '%s: the arguments of the inversion can be traced to generate_instances' % cls, got='some are parameters of %s, some are computed there' % g.name)
+                    continue
             elif any(isinstance(a_, ast.Name) and a_.id in ps for a_ in args_[:2]):
                 rep.inconclusive('C12.R4', g.where, '%s: the arguments of the inversion can be traced to generate_instances' % cls, got='%d call sites of %s' % (len(outer), g.name))
                 continue
